@@ -329,6 +329,12 @@ func Match(p, t *Term, env map[string]*Term) bool {
 		env[p.Name] = t
 		return true
 	}
+	// a struct value with individually updated fields, with:F(base, v): a pattern that does not mention the
+	// update describes the base value
+	if t.Op == "call" && (strings.HasPrefix(t.Name, "with:") || strings.HasPrefix(t.Name, "maywith:")) &&
+		!(p.Op == "call" && (strings.HasPrefix(p.Name, "with:") || strings.HasPrefix(p.Name, "maywith:") || p.Name == "_")) && !(p.Op == "op" && p.Name == "has") {
+		return Match(p, t.Args[0], env)
+	}
 	if p.Op == "op" {
 		switch p.Name {
 		case "each": // every control-flow alternative matches
